@@ -514,7 +514,7 @@ class APIClient:
         self, unsub_callback: Callable[[], None]
     ) -> None:
         """Unsubscribe Bluetooth advertisements if connected."""
-        if self._connection is not None:
+        if self._connection is not None and self._connection.is_connected:
             unsub_callback()
             self._connection.send_message(UnsubscribeBluetoothLEAdvertisementsRequest())
 
@@ -930,7 +930,7 @@ class APIClient:
             raise
 
         async def stop_notify() -> None:
-            if self._connection is None:
+            if self._connection is None or not self._connection.is_connected:
                 return
 
             remove_callback()
@@ -1344,7 +1344,11 @@ class APIClient:
         start_task: asyncio.Task[int | None] | None = None
 
         def _started(fut: asyncio.Task[int | None]) -> None:
-            if self._connection is not None and not fut.cancelled():
+            if (
+                self._connection is not None
+                and self._connection.is_connected
+                and not fut.cancelled()
+            ):
                 port = fut.result()
                 if port is not None:
                     self._connection.send_message(VoiceAssistantResponse(port=port))
@@ -1420,7 +1424,7 @@ class APIClient:
         def unsub() -> None:
             nonlocal start_task
 
-            if self._connection is not None:
+            if self._connection is not None and self._connection.is_connected:
                 for remove_callback in remove_callbacks:
                     remove_callback()
                 self._connection.send_message(
